@@ -92,6 +92,7 @@ class Interp:
         self.hooks = {}                # name -> callable, engine extension points used by contracts
         self.attached = set()          # loop specs that attached on this path
         self.inline_only = False
+        self.modular_calls = 0
         self.mbqi_fallback_ms = 0
         self.feas_rlimit = int(os.environ.get('PYVC_FEAS_RLIMIT', '100000'))
 
@@ -175,7 +176,8 @@ class Interp:
         dt = time.time() - t0
         if r == UNSAT:
             self.obs.append(ObResult(ob_id, "proved", dt, detail, kind=kind, path=self.prefix[:self.pos], line=self.cur_line))
-            self.assume(goal)
+            if kind != "post":
+                self.assume(goal)
             return True
         m = None
         if r == SAT:
@@ -221,7 +223,8 @@ class Interp:
         else:
             self.obs.append(ObResult(ob_id, "undecided", dt, "solver returned unknown (" + self.solver.reason_unknown() + ") " + detail,
                                      kind=kind, path=self.prefix[:self.pos], line=self.cur_line))
-        self.assume(goal)
+        if kind != "post":
+            self.assume(goal)
         return False
 
     def trust(self, name):
@@ -1082,6 +1085,7 @@ class Interp:
     def call_closure(self, f, args, kwargs):
         tgt = self.fn_target(f) if not isinstance(f.node, ast.Lambda) else None
         if tgt is not None and tgt in self.contracts and not self.inline_only and (self.frames or tgt != self.root):
+            self.modular_calls += 1
             return self.contracts[tgt].apply_at_call(self, f, args, kwargs)
         env = self.bind_params(f, args, kwargs)
         if isinstance(f.node, ast.Lambda):
